@@ -71,20 +71,25 @@ def repo_fingerprint():
     return h.hexdigest()[:20]
 
 
-def verif_fingerprint():
-    """hash of the framework's own sources, so that cached artefacts are not
-    reused across edits of the framework"""
+def verif_fingerprint(paths=None):
+    """hash of the framework sources an artefact depends on (relative to /verif;
+    directories are walked), so that cached artefacts are not reused across
+    edits of the machinery that produced them"""
     h = hashlib.sha256()
-    for sub in ("spec", "tools", "harness"):
-        for dp, dn, fn in os.walk(os.path.join(ROOT, sub)):
-            dn[:] = sorted(d for d in dn if d not in ("target", "__pycache__"))
-            for f in sorted(fn):
-                if f.endswith((".pyc",)):
-                    continue
-                p = os.path.join(dp, f)
-                h.update(p.encode())
-                with open(p, "rb") as fh:
-                    h.update(fh.read())
+    paths = paths or ["spec", "tools", "harness/crates", "harness/Cargo.toml", "harness/.cargo"]
+    files = []
+    for rel in paths:
+        p = os.path.join(ROOT, rel)
+        if os.path.isdir(p):
+            for dp, dn, fn in os.walk(p):
+                dn[:] = sorted(d for d in dn if d not in ("target", "__pycache__"))
+                files += [os.path.join(dp, f) for f in sorted(fn) if not f.endswith(".pyc")]
+        elif os.path.exists(p):
+            files.append(p)
+    for p in sorted(files):
+        h.update(p.encode())
+        with open(p, "rb") as fh:
+            h.update(fh.read())
     return h.hexdigest()[:20]
 
 
